@@ -168,6 +168,8 @@ class TStr(str):
 
     def strip(self, chars=None):
         # atoms/residues are assumed free of outer whitespace (precondition): native strip is exact
+        if chars is not None and has_tokens(str.__str__(self)):
+            return self.lstrip(chars).rstrip(chars)
         return TStr(str.strip(self, chars))
 
     def rstrip(self, chars=None):
@@ -198,7 +200,28 @@ class TStr(str):
         return TStr(s[:i])
 
     def lstrip(self, chars=None):
-        return TStr(str.lstrip(self, chars))
+        s = str.__str__(self)
+        if chars is None or not has_tokens(s):
+            return TStr(str.lstrip(self, chars))
+        # lstrip(chars) removes every leading character that is a MEMBER of chars (a set, not a prefix)
+        chars = plain(chars)
+        i = 0
+        while i < len(s):
+            ch = s[i]
+            if not is_tok(ch):
+                if ch in chars:
+                    i += 1
+                    continue
+                break
+            t = tok(ch)
+            if t["kind"] == "res":
+                c = s_or(*[ch_eq(ch, x) for x in chars])
+                if c if isinstance(c, bool) else bool(c):
+                    i += 1
+                    continue
+                break
+            raise Unsupported("lstrip(%r) reaching an opaque field" % (chars,))
+        return TStr(s[i:])
 
     def replace(self, old, new, count=-1):
         if has_tokens(self) and not has_tokens(old):
